@@ -52,6 +52,36 @@ theorem task_rows_iff (plain showProc : Bool) (specs : List RowSpec) (b c : Stat
   · rintro ⟨t, ht, bt, ct, hb, hc, hr⟩
     exact ⟨t, ht, by simp [hb, hc, hr]⟩
 
+/-- the name a record is listed and looked up under is its `task` field whenever it has one – whatever its
+    operation is called; only a record without a task key (race files before Rally 0.8.0) goes by its operation -/
+theorem task_name_def (n op : Str) (sc : Scope) :
+    (TaskM.mk (some n) op sc).name = n ∧ (TaskM.mk none op sc).name = op := ⟨rfl, rfl⟩
+
+/-- **each task is compared through its own record**: in a race with pairwise distinct task names the lookup
+    `metrics(t)` returns the record whose name is `t` – never a record of another task that shares the operation
+    or whose operation is called like `t` -/
+theorem task_lookup_own_record (l : List TaskM) (hnd : (l.map TaskM.name).Nodup) (t : TaskM) (ht : t ∈ l) :
+    findTask t.name l = some t ∧ ∀ u, findTask t.name l = some u → u = t := by
+  have h := findTask_of_nodup hnd ht
+  exact ⟨h, fun u hu => by rw [h] at hu; cases hu; rfl⟩
+
+/-- **task_rows_own_values**: with pairwise distinct task names in both races, the rows listed for a task are
+    exactly the rows built from the values stored in *the* baseline record and *the* contender record of that
+    name (matched by their own `task` field, in the order of the baseline's records). -/
+theorem task_rows_own_values (plain showProc : Bool) (specs : List RowSpec) (b c : Stats)
+    (hb : (b.tasks.map TaskM.name).Nodup) (hc : (c.tasks.map TaskM.name).Nodup) (r : Row) :
+    r ∈ taskRows plain showProc specs b c ↔
+      ∃ bt ∈ b.tasks, ∃ ct ∈ c.tasks, ct.name = bt.name ∧ r ∈ scopeRows plain showProc specs bt.name bt.sc ct.sc := by
+  rw [task_rows_iff]
+  constructor
+  · rintro ⟨t, ht, bt, ct, h1, h2, hr⟩
+    have e1 := findTask_of_nodup hb ht
+    rw [e1] at h1; cases h1
+    exact ⟨t, ht, ct, (findTask_some h2).1, (findTask_some h2).2, hr⟩
+  · rintro ⟨bt, hbt, ct, hct, hn, hr⟩
+    refine ⟨bt, hbt, bt, ct, findTask_of_nodup hb hbt, ?_, hr⟩
+    rw [← hn]; exact findTask_of_nodup hc hct
+
 /-- ML jobs / transforms: one group of rows per pair of entries with the same id (when no `is None` guard
     skips the block; a skipped block has no rows). -/
 theorem join_rows_iff (plain showProc : Bool) (k : Str) (gb gc : Option Str) (specs : List RowSpec) (b c : Stats)
@@ -723,6 +753,12 @@ def sc (v : Val) : Scope := ⟨[(['k'], v)], []⟩
 example : (scopeRows false false [gcCount] [] (sc (.int 5)) (sc (.int 7))).length = 1 := rfl
 /-- … and none when one side lacks it -/
 example : scopeRows false false [gcCount] [] (sc (.int 5)) ⟨[], []⟩ = [] := rfl
+/-- two tasks sharing the operation `b`, the explicitly named one first: names are distinct and looking up the
+    default-named task `b` finds the second record, not the first one whose *operation* is `b` -/
+example :
+    let l : List TaskM := [⟨some ['w'], ['b'], sc (.int 1)⟩, ⟨some ['b'], ['b'], sc (.int 2)⟩]
+    (l.map TaskM.name).Nodup ∧ (findTask ['b'] l).map (fun t => t.sc.vals.length) = some 1 ∧
+      (findTask ['b'] l).map TaskM.task = some (some ['b']) := by decide
 /-- exact ints exist (hypothesis of colour_follows_direction) -/
 example : (Val.int 7).exact ∧ (Val.flt ⟨true, 1 / 2⟩).exact := by
   constructor
